@@ -3,7 +3,9 @@ import subprocess, re, glob, json
 tab = subprocess.run(["python3", "/verif/tools/seedtable.py"], capture_output=True, text=True).stdout.rstrip("\n")
 p = "/verif/DESIGN.md"; s = open(p).read()
 i = s.index("| change | what | needs | tests pass | caught by (violation kinds) |")
-j = s.index("\n\n", s.index("\n", s.index("changes apply to the current tree", i)))
+k = s.index("changes apply to the current tree", i) if "changes apply to the current tree" in s[i:] else s.index("changes archived", i)
+j = s.find("\n", k)
+j = len(s) if j < 0 else j
 n = len(glob.glob("/verif/seeded/*/meta.json"))
 missed = []
 for f in sorted(glob.glob("/verif/seeded/*/meta.json")):
@@ -12,6 +14,6 @@ for f in sorted(glob.glob("/verif/seeded/*/meta.json")):
 tail = ("All %d changes apply to the current tree (three patches were re-based after later fix commits touched the same lines), build, pass the 33 "
         "tests, and are caught with a concrete replay (none needs `no-failing-input-found`)." % n) if not missed else \
        ("%d changes archived; NOT caught by any check: %s." % (n, ", ".join(missed)))
-s = s[:i] + tab + "\n\n" + tail + s[j:]
+s = s[:i] + tab + "\n\n" + tail + (s[j:] if s[j:].strip() else "\n")
 open(p, "w").write(s)
 print(n, "rows;", "missed:", missed)
